@@ -833,6 +833,12 @@ func checkC16(h *XHistory) {
 			s.Fail("C16", "foreign-outcome", "call %d (token %s): the caller received the reply generated for token %s (serial %d, sent over %s)", c.C.Idx, c.C.Token, c.Meta.Token, c.Meta.Serial, protoOfSerial(u, c.Meta))
 			continue
 		}
+		if wrongIDs {
+			// the call may have been ended by another exchange's reply that the
+			// server sent under this call's wire id, before its own (truncated)
+			// reply arrived: what it "should" have got then says nothing
+			continue
+		}
 		var udpReplies, tcpQueries, tcpReplies []int
 		var udpTC bool
 		for i, r := range u.Replies {
